@@ -20,6 +20,15 @@ CLAIMED = {
    "at the end every statement succeeded, repeats only for the statement whose own post-write failed (one per fired write fault), exactly once when only statements fail; all revisions complete without error.",
    "Faults are transient (the retried statement succeeds). The revision store is an in-memory model that drops a failed write entirely (no torn rows); the database side of atomicity is C10/C13.",
    "4/C09"),
+ "C11": ("exploration",
+   "exhaustive state enumeration + rapid PBT, differential against an executable reference model of the documented semantics; rapid-generated operation histories on the real CLI",
+   "Every state (directory of <=4 quick / <=5 thorough versions, any checkpoint subset, any revision subset plus an optional ghost revision, last revision complete / partial / partial-but-resolved, "
+   "3 exec orders, every first-run gate incl. every baseline) is built for the real migrate.Executor and Pending, ExecuteN(0..3) and ExecuteTo(every version) are compared with harness/c11/model.go "
+   "(pending list, error type, HistoryNonLinearError fields, executed statements). CLI tier: random histories {add file in/out of order, checkpoint, failing statement, fix, apply n with exec-order/allow-dirty/baseline, migrate set} "
+   "on a SQLite file; after every step `migrate status` JSON, the journal rows an apply really wrote and the post-`set` status are compared with the same model evaluated on the independently read revision table.",
+   "The reference was written from the doc comments after reading the code: it is a declarative restatement that index-arithmetic mutants cannot also satisfy, not an independent specification. "
+   "Three states where the docs are silent are excluded and counted (evidence.rejected). `migrate set` only on linear histories.",
+   "4/C11"),
 }
 PENDING_REASON = "check not built yet in this session (planned in DESIGN.md section 4; will be claimed once its quick check is green and sensitivity-tested)"
 
